@@ -442,6 +442,49 @@ pub fn run(ctx: &Ctx) -> CheckResult {
             res.absorb(o);
         }
     }
+    // (b0) EVERY period 1..=1100 (and 2^k-1, 2^k, 2^k+1 up to 2^16) on the default stream, 2n+3 inputs:
+    // a fixed-size scratch array, a bit mask or a narrow cursor fails for exactly one period value
+    if !res.out.failed() {
+        let mut periods: Vec<usize> = (65..=1100).collect();
+        for k in 11..=16u32 {
+            periods.extend([(1usize << k) - 1, 1 << k, (1 << k) + 1]);
+        }
+        let mut jobs: Vec<Cfg> = vec![];
+        for k in ALL_KINDS {
+            if k.nperiods() == 0 {
+                continue;
+            }
+            for &p in &periods {
+                if p > 1100 && matches!(k, Kind::Mad | Kind::Cci | Kind::Er) && !th {
+                    continue;
+                }
+                jobs.push(Cfg::of(k, &[p, (p % 7) + 1, (p % 5) + 1], 2.0));
+                if k.nperiods() >= 2 {
+                    jobs.push(Cfg::of(k, &[(p % 5) + 1, p, p], 2.0));
+                }
+            }
+        }
+        let chunks: Vec<&[Cfg]> = jobs.chunks(8).collect();
+        let outs = par_run(ctx, &chunks, |_, chunk| {
+            let mut out = JobOut::default();
+            for cfg in chunk.iter() {
+                let n = cfg.max_period();
+                let len = 2 * n + 3;
+                let base: Vec<Op> = (0..len).map(|i| ordinary(cfg.kind, i)).collect();
+                out.stats.states += 1;
+                out.stats.traces += 1;
+                out.stats.transitions += len as u64 + 4;
+                out.stats.evaluations += 1;
+                out.stats.nontrivial += 1;
+                if let Err((step, phase)) = run_total(cfg, &base, None) {
+                    report(cfg, &base, step, phase, &mut out, "default stream, every period".into());
+                    return out;
+                }
+            }
+            out
+        });
+        res.absorb(merge_jobs(outs));
+    }
     // (c') medium periods, up to three deviations of tie-producing kinds at every set of positions
     // (props/devfam.rs): double / triple copies of the window extreme, one of them exactly one period after
     // another, dips right after peaks - the states of shortcuts that only exist for longer windows
